@@ -35,15 +35,16 @@ var props = map[string]*propDef{}
 func register(p *propDef) { props[p.id] = p }
 
 type checkCtx struct {
-	p       *propDef
-	env     *buildEnv
-	bin     string
-	seed    uint64
-	tier    string
-	b       *batch
-	extra   map[string]interface{}
-	t0      time.Time
-	nowRuns int
+	preViolation *found // a violation established by the pre-phase (C19: fresh-process nondeterminism)
+	p            *propDef
+	env          *buildEnv
+	bin          string
+	seed         uint64
+	tier         string
+	b            *batch
+	extra        map[string]interface{}
+	t0           time.Time
+	nowRuns      int
 }
 
 type replayFile struct {
@@ -241,6 +242,9 @@ func cmdCheck(id string, tier string, replayPath string) int {
 	if tier == "thorough" {
 		total, capS = p.thorRuns, p.thorS
 	}
+	if c.preViolation != nil {
+		return reportFreshNondet(c, c.preViolation)
+	}
 	deadline := time.Now().Add(time.Duration(capS) * time.Second)
 	var batchArgs []string
 	if p.rorder {
@@ -382,6 +386,14 @@ func cmdReplay(c *checkCtx, path string) int {
 		if err != nil {
 			exit2("%v", err)
 		}
+	} else if len(rf.Window) == 2 && strings.HasSuffix(rf.Class, freshNondetSuffix) {
+		if a, b, differs := freshNondet(c, rf.Window[0]); differs {
+			fmt.Printf("replay of %s: class=%s: corpus item %d still answers differently in fresh processes:\n  %s\n  %s\n", path, rf.Class, rf.Window[0], clip(a, 400), clip(b, 400))
+			fmt.Printf("VIOLATION property=%s replay=%s\n", p.id, path)
+			return 1
+		}
+		fmt.Printf("replay of %s: no violation on this tree\n", path)
+		return 0
 	} else if len(rf.Window) == 2 && strings.HasSuffix(rf.Class, rOrderSuffix) {
 		if rOrderDiffers(c, rf.Window[0], rf.Window[1]+1, rf.RunIndex) {
 			fmt.Printf("replay of %s: class=%s: run %d still depends on what the process executed before\n", path, rf.Class, rf.RunIndex)
@@ -649,4 +661,30 @@ func c06Cold(c *checkCtx) *found {
 	}
 	c.extra["cold_start_processes"] = done
 	return first
+}
+
+func reportFreshNondet(c *checkCtx, v *found) int {
+	known := loadKnown()
+	if e := known.match(c.p.id, v); e != nil {
+		fmt.Printf("KNOWN-FINDING: property=%s %s\n", c.p.id, e.What)
+		return 0
+	}
+	rf := replayFile{Property: c.p.id, Seed: c.seed, RunIndex: v.I, Tier: c.tier, Class: v.Viol.Class, Key: v.Viol.Key, Detail: v.Viol.Detail,
+		Window: []int{v.I, v.I}, Note: "replay executes corpus item window[0] of seed/tier as the first call of several fresh pristine processes and compares the outcomes"}
+	os.MkdirAll(filepath.Join(verifDir, "replays"), 0o755)
+	path := filepath.Join(verifDir, "replays", fmt.Sprintf("%s-%d-item%d.json", c.p.id, c.seed, v.I))
+	jb, _ := json.MarshalIndent(rf, "", " ")
+	os.WriteFile(path, jb, 0o644)
+	fmt.Printf("violation class=%s key=%q\n%s\n", v.Viol.Class, v.Viol.Key, v.Viol.Detail)
+	if _, _, differs := freshNondet(c, v.I); !differs {
+		c.env.cleanup()
+		exit2("nondeterminism of corpus item %d did not reproduce: not reported as a verdict", v.I)
+	}
+	fmt.Printf("VIOLATION property=%s replay=%s\n", c.p.id, path)
+	c.b = newBatch()
+	c.b.runs = 1
+	c.b.cases[1], c.b.cases[2] = struct{}{}, struct{}{}
+	c.b.samples = [][]string{{v.Viol.Detail}}
+	writeEvidence(c, 1, path)
+	return 1
 }
